@@ -81,9 +81,11 @@ def f_placement(case):
         circ.take(g)
         circ.compile()
         circ.forward(obj)
+        holder = circ
     else:       # a compiled layer
         layer = pc.CliffordLayer(g).compile(N)
         layer.forward(obj)
+        holder = layer
     l, k = B.read_list(obj)
     el, ek = exp.apply(L, K)
     C.expect_list((l, k), (el, ek), '%s%s on %d qubits' % (name, tuple(q), N), 'action')
@@ -104,6 +106,10 @@ def f_placement(case):
             C.expect_list(B.read_list(obj3), (exp if d == 'f' else inv).apply(L, K), '%s%s: %s of the used gate run %s' % (name, tuple(q), variant, 'forward' if d == 'f' else 'backward'), 'action-copy')
     f_now = ref.RefClifford(*B.read_list(g.forward_map))
     check(f_now.embed(q if name != 'CNOT' else sorted(q), N).key() == exp.key() if name != 'CNOT' else True, '%s: forward_map changed by running the gate' % name, 'map-changed')
+    if case['via'] in ('circuit-compiled', 'layer-compiled'):     # the compiled object also runs backward as the inverse table
+        objb = B.np_list(L, K)
+        holder.backward(objb)
+        C.expect_list(B.read_list(objb), exp.inverse().apply(L, K), '%s%s on %d qubits through a %s, backward' % (name, tuple(q), N, case['via']), 'action-backward')
     changed = ((el != L).any(-1) | (ek != K))
     # explicit statement clauses
     if name == 'CNOT':
